@@ -131,15 +131,15 @@ pub fn run(repeats: u64, n: u64) -> (u64, u64, u64, u64, Vec<String>) {
             if kind == 1 && discrete {
                 return (true, String::new());
             }
-            // defect 0: with probability 1e-3 the draw is replaced by the median-ish value of an independent draw
-            //           conditioned to the upper half (moves 1e-3 of mass towards the upper half)
-            // defect 1: a 0.5 % scale error
+            // defect 0: with probability 2e-2 a lower-half draw is replaced by the median-ish value of an independent draw
+            //           is redrawn from the upper half (moves 1e-2 of mass: ~4x the quick-tier body resolution 2.2e-3)
+            // defect 1: a 3 % scale error (max CDF shift ~7e-3)
             let med = crate::refdist::quantile(&law, 0.5).unwrap_or(0.0);
             let fill = move |rng: &mut BaseRng, out: &mut [f64]| {
                 for o in out.iter_mut() {
                     let mut x = synthetic(&c2, rng);
                     if kind == 0 {
-                        if u01(rng) < 2e-3 && x <= med {
+                        if u01(rng) < 2e-2 && x <= med {
                             // redraw until in the upper half
                             for _ in 0..64 {
                                 let y = synthetic(&c2, rng);
@@ -150,7 +150,7 @@ pub fn run(repeats: u64, n: u64) -> (u64, u64, u64, u64, Vec<String>) {
                             }
                         }
                     } else {
-                        x = c2.p.first().copied().filter(|_| matches!(c2.fam, Fam::Normal | Fam::Gumbel)).map(|loc| loc + (x - loc) * 1.005).unwrap_or(x * 1.005);
+                        x = c2.p.first().copied().filter(|_| matches!(c2.fam, Fam::Normal | Fam::Gumbel)).map(|loc| loc + (x - loc) * 1.03).unwrap_or(x * 1.03);
                     }
                     *o = x;
                 }
